@@ -60,24 +60,28 @@ impl SigV4Authenticator {
     {}
 
 //@ fn auth.rs impl SigV4Authenticator :: builder
+//@ params
 //@ props C08 C17
 //@ ret r
 //@ spec
     ensures r.canonical_request_sha256 is None, r.credential is None, r.session_token is None, r.signature is None, r.request_timestamp is None
 //@ end
 //@ fn auth.rs impl SigV4Authenticator :: canonical_request_sha256
+//@ params
 //@ props C08 C01 C17
 //@ ret r
 //@ spec
     ensures r@ == self.creq_hash()
 //@ end
 //@ fn auth.rs impl SigV4Authenticator :: credential
+//@ params
 //@ props C08 C03 C17
 //@ ret r
 //@ spec
     ensures r.spec_bytes() == self.cred()
 //@ end
 //@ fn auth.rs impl SigV4Authenticator :: session_token
+//@ params
 //@ props C08 C03 C17
 //@ ret r
 //@ replace 1 `self.session_token.as_deref()` => `option_string_as_deref(&self.session_token)`
@@ -85,12 +89,14 @@ impl SigV4Authenticator {
     ensures self.token() is None ==> r is None, self.token() is Some ==> r is Some && r->Some_0@ == self.token()->Some_0@
 //@ end
 //@ fn auth.rs impl SigV4Authenticator :: signature
+//@ params
 //@ props C08 C01 C17
 //@ ret r
 //@ spec
     ensures r.spec_bytes() == self.sig()
 //@ end
 //@ fn auth.rs impl SigV4Authenticator :: request_timestamp
+//@ params
 //@ props C08 C04 C17
 //@ ret r
 //@ spec
@@ -98,6 +104,7 @@ impl SigV4Authenticator {
 //@ end
 
 //@ fn auth.rs impl SigV4Authenticator :: prevalidate
+//@ params region service server_timestamp allowed_mismatch
 //@ hideutf8
 //@ props C08 C03 C04 C13 C17
 //@ ret r
@@ -127,6 +134,7 @@ impl SigV4Authenticator {
 //@ end
 
 //@ fn auth.rs impl SigV4Authenticator :: get_string_to_sign
+//@ params
 //@ hideutf8
 //@ props C08 C01 C03 C16 C17
 //@ ret r
@@ -151,6 +159,7 @@ impl SigV4Authenticator {
     }
 
 //@ fn auth.rs impl SigV4Authenticator :: get_signing_key
+//@ params region service get_signing_key
 //@ hideutf8
 //@ props C08 C03 C14 C17
 //@ ret r
@@ -188,6 +197,7 @@ impl SigV4Authenticator {
     }
 
 //@ fn auth.rs impl SigV4Authenticator :: validate_signature
+//@ params region service server_timestamp allowed_mismatch get_signing_key
 //@ hideutf8
 //@ props C08 C01 C02 C14 C15 C17 C13
 //@ ret r
@@ -229,9 +239,24 @@ impl vstd::std_specs::convert::FromSpecImpl<GetSigningKeyResponse> for SigV4Auth
 impl SigV4AuthenticatorResponse {
     pub closed spec fn s_principal(&self) -> Principal { self.principal }
     pub closed spec fn s_session_data(&self) -> SessionData { self.session_data }
+//@ fn auth.rs impl SigV4AuthenticatorResponse :: principal
+//@ params
+//@ props C08 C15
+//@ ret r
+//@ spec
+        ensures *r == self.s_principal() //# C15 name=returned_principal_accessor
+//@ end
+//@ fn auth.rs impl SigV4AuthenticatorResponse :: session_data
+//@ params
+//@ props C08 C15
+//@ ret r
+//@ spec
+        ensures *r == self.s_session_data() //# C15 name=returned_session_data_accessor
+//@ end
 }
 impl From<GetSigningKeyResponse> for SigV4AuthenticatorResponse {
 //@ fn auth.rs impl From<GetSigningKeyResponse> for SigV4AuthenticatorResponse :: from
+//@ params request
 //@ props C08 C15 C17
 //@ ret r
 //@ spec
@@ -240,6 +265,7 @@ impl From<GetSigningKeyResponse> for SigV4AuthenticatorResponse {
 }
 /// helper of the two window error messages (the text is not verified; evaluating it must not panic)
 //@ fn auth.rs duration_to_string
+//@ params duration
 //@ props C08
 //@ end
 } // mod auth_m
